@@ -243,6 +243,25 @@ func planC10(tier string, root *simcore.RNG) *plan {
 					Env: Env{GOMAXPROCS: pick(r, []int{1, 4, 16}), CPUs: 16, Race: true}, Note: "long-history"}
 				pl.scenarios = append(pl.scenarios, sc)
 			}
+			// trigger sweep: one caller is held back and let through exactly when another
+			// caller is parked at the k-th distinct instrumented code location of the library
+			if stateful {
+				kmax := 10
+				reps := 1
+				if tier == "thorough" {
+					kmax, reps = 14, 4
+				}
+				for k := 1; k <= kmax; k++ {
+					for rep := 0; rep < reps; rep++ {
+						r := root.Fork()
+						j := Job{ID: 1, Kind: "eval", Model: name, Callers: 3 + r.Intn(2), Points: 10 + r.Intn(10), CoordSeed: r.Uint64()}
+						sc := &Scenario{Prop: "C10", Family: "eval", Seed: r.Uint64(), Groups: [][]Job{{j}},
+							Sites: map[string]uint32{"caller": 1, "auto": 1}, Sched: Sched{Policy: "starve", Victim: fmt.Sprintf("caller:%d", r.Intn(2)), Trig: k, Seed: r.Uint64()},
+							Env: Env{GOMAXPROCS: pick(r, []int{1, 4, 16}), CPUs: 16, Race: r.Intn(2) == 0}, Note: "trigger-sweep"}
+						pl.scenarios = append(pl.scenarios, sc)
+					}
+				}
+			}
 			// a history that stops just short of a power of two, so that a size or
 			// read-count threshold is crossed by the concurrent callers, not before
 			if stateful {
